@@ -105,7 +105,8 @@ def classify_count(fx, f, bi, t):
                                 classes.add("ACCUMULATED")
                                 details.append("added to `%s`, loop continues while it is short of the request"
                                                % f.name_of_local.get(acc, "_%d" % acc))
-                                if not _zero_progress_exit(f, body, tainted):
+                                callee = q.names(t)[1] or q.names(t)[0]
+                                if not _zero_progress_exit(f, body, tainted) and callee not in NONZERO:
                                     classes.add("NO-ZERO-EXIT")
                     if "ACCUMULATED" not in classes:
                         details.append("added to `%s` but no enclosing loop tests it" % f.name_of_local.get(acc, "_%d" % acc))
@@ -188,6 +189,39 @@ def _early_exits(f, body, acc, tainted):
             if t.get("op_ty") == "isize":
                 continue
     return out
+
+
+NONZERO = set()      # partial functions that fail rather than return a zero count
+
+
+def _fails_on_zero(f, tainted):
+    """Somewhere the count is tested against 0 and the zero branch only fails."""
+    cfg = cfg_of(f)
+    du = defuse(f)
+    sig = r_err.signal_blocks(f)
+    everything = set(range(len(f.blocks)))
+    for u, b in enumerate(f.blocks):
+        t = b["term"]
+        if b.get("cleanup") or t["k"] != "switch":
+            continue
+        l = op_local(t["op"])
+        if t.get("op_ty") not in ("bool", "isize") and l in tainted:
+            for val, tb in t["targets"]:
+                if int(val) == 0 and _only_fails(f, tb, set(), sig):
+                    return True
+        if t.get("op_ty") == "bool":
+            for site, whole in du.defs.get(l, []):
+                if site.is_term:
+                    continue
+                rv = site.node["rv"]
+                if rv["k"] == "bin" and rv["op"] in CMP:
+                    la, lb = op_local(rv["a"]), op_local(rv["b"])
+                    ca, cb = rv["a"].get("c"), rv["b"].get("c")
+                    if (la in tainted and cb is not None and cb.get("v") == 0) or (lb in tainted and ca is not None and ca.get("v") == 0):
+                        for tb in set([b2 for _, b2 in t["targets"]] + [t["otherwise"]]):
+                            if _only_fails(f, tb, set(), sig):
+                                return True
+    return False
 
 
 def _zero_progress_exit(f, body, tainted):
@@ -294,6 +328,7 @@ def _loop_tests(f, body, acc):
 def run(fx, cfgname="A", reach=None):
     """Returns (obs, partial summary)."""
     fns = list(ro.fns_in_scope(fx, crates=("libxcp", "libfs")))
+    NONZERO.clear()
     partial = set(PRIMITIVES)
     site_cls = {}
     changed = True
@@ -310,6 +345,13 @@ def run(fx, cfgname="A", reach=None):
                     continue
                 cls, det = classify_count(fx, f, bi, t)
                 site_cls[(f.path, bi)] = (t, cls, det)
+                if "FORWARDED" in cls:
+                    flow = Flow(f, table=COUNT_FLOW, through_agg=True, through_bin=False, through_field=True,
+                                skip_variants=("Break", "Err", "None"))
+                    tn, _p = flow.run([t["dest"]["l"]])
+                    if _fails_on_zero(f, tn) and f.path not in NONZERO:
+                        NONZERO.add(f.path)
+                        changed = True
                 if "FORWARDED" in cls and not (cls & {"ACCUMULATED", "COMPARED"}):
                     if f.path not in partial:
                         partial.add(f.path)
